@@ -407,6 +407,43 @@ def programs(draw, tier, connectives=False):
     return prog
 
 
+def shift_program(prog, off):
+    """the same program on a clock that starts `off` later (every absolute date moved): with a large, exactly
+    representable offset the float resolution is ~1e-7 - dates one tick of the grid apart are still different dates"""
+    import copy as _copy
+    prog = _copy.deepcopy(prog)
+
+    def expr(e):
+        if not isinstance(e, list) or not e:
+            return
+        if e[0] in ('time_ge', 'time_lt', 'time_eq') and not isinstance(e[1], str):
+            e[1] = e[1] + off
+        for x in e[1:]:
+            if isinstance(x, list):
+                expr(x)
+
+    def walk(steps):
+        for st_ in steps:
+            if st_.get('op') in ('at_eq', 'at_ge', 'at_lt'):
+                st_['t'] = st_['t'] + off
+            if 'notif' in st_:
+                expr(st_['notif'])
+            for ch in st_.get('children', ()) or ():
+                if ch.get('at') is not None:
+                    ch['at'] = ch['at'] + off
+                walk(ch['steps'])
+            walk(st_.get('body', ()) or ())
+            walk(st_.get('final', ()) or ())
+    prog['start'] = prog['start'] + off
+    if prog.get('till') is not None:
+        prog['till'] = prog['till'] + off
+    for c in prog.get('objs', {}).get('conds', ()) or ():
+        expr(c)
+    for r in prog['roots']:
+        walk(r['steps'])
+    return prog
+
+
 class C07(Check):
     pid = 'C07'
     level = 'exploration'
@@ -432,8 +469,10 @@ class C07(Check):
     def strategy(self, tier):
         main = programs(tier, connectives=False)
         side = programs(tier, connectives=True)
+        # ... and the same kinds of programs on a clock with large values (seconds since 1970, say)
+        late = st.one_of(main, side, side, toggle_programs()).map(lambda pr: shift_program(pr, 2.0 ** 31))
         return st.one_of(main, main, main, main, main, main, side, reuse_programs(), toggle_programs(), exit_programs(),
-                         date_reuse_programs(), timed_cleanup_cases())
+                         date_reuse_programs(), timed_cleanup_cases(), late)
 
     # ---- directed family: interrupts that arrive while the body is busy with clean-up that takes time
     @staticmethod
